@@ -30,6 +30,23 @@ CLAIMED = {
              "accepted is eventually written) is observed, not proved.",
         note=COMMON_NOTE + "The model's events are atomic with respect to each other because the session actor is a single task; fibre channels are assumed FIFO.",
         design="§8 C01"),
+    "C02": dict(
+        engine="M6 Multipart + M2 Engine",
+        technique="Lean 4 theorems: invariant by induction over every history of the receive-side stash (registration, arrival, recv, recv_multipart, "
+                  "detach), MORE-flag normalisation lemmas, a frame-count limit chain, and an engine invariant (only whole messages are delivered) lifted "
+                  "through step/run/feedAll; tie: translator re-extracts the stash/normalisation/limit shape of the sources (theorems "
+                  "`current_source_is_the_proved_instance`, `senders_normalise`, `frame_limits_consistent`), lock-step correspondence on the real "
+                  "AnonymousIngressEngine, multipart streaming / interrupted-read / oversized-message scenarios on real sockets",
+        text="Proof over the models: for every history the frames handed to the application followed by the stashed rest are exactly the messages "
+             "taken from the queue, in order, contiguous and complete, whatever other peers attach or detach and however recv() and recv_multipart() "
+             "are mixed; every recv_multipart() result ends a message; per-pipe FIFO; one send_multipart call puts one well-formed message on the wire "
+             "with payloads untouched; the frame limits of sender API, DEALER buffering, receiving engine and message container fit together; the "
+             "engine hands over only whole messages within the limit for every byte stream and segmentation; the two earlier shapes (stash cleared on "
+             "detach, recv_multipart ignoring the stash) are proved unsafe by explicit traces. 13 theorems. Partial: DEALER's and ROUTER's own stash "
+             "code is tied by pattern flags and stack scenarios rather than a component run; ROUTER's frame-by-frame send() path can still put more "
+             "than the limit on the wire (the receiver then closes the connection, which the property allows).",
+        note=COMMON_NOTE + "The ready-pipe queue is modelled sequentially here (its concurrency is C08's subject).",
+        design="§8 C02"),
     "C03": dict(
         engine="M1 Wire",
         technique="Lean 4 theorems (round-trip, encoder agreement, cut-independence by induction over the chunk list) "
